@@ -30,6 +30,7 @@ struct dep_in {
     bool alloc_fail[DEP_MAX_ALLOC];        /* does the k-th allocation fail       */
     uint8_t alloc_fill[DEP_MAX_ALLOC][sizeof(polyseed_data)]; /* fresh block contents */
     char norm_out[DEP_STR_MAX + 1];        /* what the normaliser returns         */
+    size_t probe;                          /* position at which the decomposer stub looks at its input */
 };
 
 static struct dep_in DEPIN;
@@ -53,10 +54,7 @@ static const char* L_nfc_in; static char* L_nfc_out;
 #define DEP_IN_COPY 48
 static char L_nfc_in_copy[DEP_IN_COPY];   /* first bytes of what the composer was given */
 static char L_nfkd_in_copy[DEP_IN_COPY];  /* first bytes of what the decomposer was given */
-static size_t L_nfkd_in_len;              /* ... and its length (up to DEP_IN_LEN_MAX) */
-#ifndef DEP_IN_LEN_MAX
-#define DEP_IN_LEN_MAX 64
-#endif
+static char L_nfkd_probe_byte;            /* (DEP_NFKD_PROBE) the byte found at DEPIN.probe */
 static const char* L_nfkd_in; static char* L_nfkd_out;
 static int L_seq;               /* global order of dependency calls */
 static int L_last_other_seq;    /* order number of the last call that is not a wipe (dependency or harness-level stub) */
@@ -154,8 +152,14 @@ static size_t dep_nfc(const char* str, polyseed_str norm) {
 }
 static size_t dep_nfkd(const char* str, polyseed_str norm) {
     DEP_TICK(); L_nfkd_calls++; L_nfkd_in = str; L_nfkd_out = norm;
-    { size_t n_ = 0; while (n_ < DEP_IN_LEN_MAX && str[n_] != '\0') n_++; L_nfkd_in_len = n_; }
+#ifdef DEP_NFKD_PROBE
+    /* the stub is inlined once per iteration of utf8_nfkd_lazy's loop: no loops here.
+     * One byte at a symbolic position (harness: position <= length of the caller's
+     * string) stands for "the whole string, terminator included, is what arrives" */
+    L_nfkd_probe_byte = str[DEPIN.probe];
+#else
     { bool end_ = false; for (int i_ = 0; i_ < DEP_IN_COPY; ++i_) { if (!end_ && str[i_] == '\0') end_ = true; L_nfkd_in_copy[i_] = end_ ? '\0' : str[i_]; } }
+#endif
     return dep_norm_write(norm);
 }
 
